@@ -166,6 +166,7 @@ pub fn short_op(o: &Op, plan: &Plan) -> String {
         OpKind::Sleep { ms } => format!("#{} sleep({}ms)", o.id, ms),
         OpKind::ReclaimSnap {} => format!("#{} snap", o.id),
         OpKind::ListDir { dir } => format!("#{} ls({})", o.id, dir),
+        OpKind::RemoveFile { path } => format!("#{} rm({})", o.id, path),
     }
 }
 
@@ -387,6 +388,7 @@ pub fn scenario(id: &str) -> Option<Box<dyn Scenario>> {
             relabel: None,
         }),
         "C16" => Box::new(DiffScenario),
+        "C05" => Box::new(crate::conc::ConcScenario { id: "C05" }),
         "C07" => Box::new(crate::crash::CrashScenario { mode: crate::crash::Mode::C07 }),
         "C08" => Box::new(crate::crash::CrashScenario { mode: crate::crash::Mode::C08 }),
         "C09" => Box::new(crate::crash::CrashScenario { mode: crate::crash::Mode::C09 }),
